@@ -18,18 +18,23 @@ Local Open Scope Z_scope.
    stated for amounts below BOUND units (10^98994 credits). *)
 Definition BOUND : Z := 10 ^ 99000.
 
+Lemma BOUND_eq : BOUND = 10 ^ 99000.
+Proof. unfold BOUND. reflexivity. Qed.
+
+Global Opaque BOUND.
+
 Lemma BOUND_pos : 0 < BOUND.
-Proof. unfold BOUND. apply pow10_gt0. clear. lia. Qed.
+Proof. rewrite BOUND_eq. apply pow10_gt0. clear. lia. Qed.
 
 Lemma BOUND_le_max : BOUND <= 10 ^ 100000.
-Proof. unfold BOUND. apply pow10_le. clear. lia. Qed.
+Proof. rewrite BOUND_eq. apply pow10_le. clear. lia. Qed.
 
 Lemma num_digits_BOUND c : 0 <= c -> c < BOUND -> num_digits c <= 99000.
 Proof.
-  intros H0 H1. apply num_digits_le; [split; [exact H0 | exact H1] | clear; lia].
+  intros H0 H1. rewrite BOUND_eq in H1. apply (num_digits_le c 99000).
+  - split; [exact H0 | exact H1].
+  - clear. lia.
 Qed.
-
-Global Opaque BOUND.
 
 (* every supply row is below the bound.  Market handlers and pruning never increase a tradable supply,
    so this is trivially preserved by them; issuance (create batch / mint / bridge receive) is where a
@@ -76,12 +81,11 @@ Proof.
   intros Hok Hp Hb. destruct (in_ok_pos_noneg d Hok Hp) as [Hn Hc].
   destruct Hok as (_ & _ & He).
   destruct (Z_lt_le_dec (dexp d + P) 99000) as [Hlt|Hge]; [exact Hlt|exfalso].
-  assert (H1 : 10 ^ 99000 <= 10 ^ (dexp d + P)) by (apply pow10_le; split; [clear; lia | exact Hge]).
   assert (H2 : 10 ^ (dexp d + P) <= U d).
-  { unfold U, units, dint. rewrite Hn. assert (0 < 10 ^ (dexp d + P)) by (apply pow10_gt0; lia).
-    clear H1. nia. }
-  assert (H3 : 10 ^ 99000 <= BOUND) by (pose proof BOUND_le_max; Transparent BOUND; unfold BOUND; Opaque BOUND; apply Z.le_refl).
-  clear - H1 H2 H3 Hb. set (X := 10 ^ 99000) in *. set (Y := 10 ^ (dexp d + P)) in *. clearbody X Y. lia.
+  { unfold U, units, dint. rewrite Hn. assert (0 < 10 ^ (dexp d + P)) by (apply pow10_gt0; lia). nia. }
+  assert (H1 : BOUND <= 10 ^ (dexp d + P)).
+  { rewrite BOUND_eq. apply pow10_le. split; [clear; lia | exact Hge]. }
+  clear - H1 H2 Hb. set (Y := 10 ^ (dexp d + P)) in *. clearbody Y. lia.
 Qed.
 
 Lemma round0_ok_bound neg c e :
@@ -143,7 +147,9 @@ Proof.
       apply Z.ltb_ge in E1. destruct (a - c =? 0); apply Hfin; lia.
   - specialize (Hsum eq_refl).
     destruct (dneg x) eqn:En; cbn [Bool.eqb xorb negb].
-    + rewrite (Hxa eq_refl). cbn. apply Hfin; lia.
+    + rewrite (Hxa eq_refl).
+      destruct (0 - c <? 0) eqn:E1; [apply Z.ltb_lt in E1; apply Hfin; lia|].
+      apply Z.ltb_ge in E1. destruct (0 - c =? 0); apply Hfin; lia.
     + apply Hfin; lia.
 Qed.
 
@@ -410,8 +416,8 @@ Lemma te_bound s a k :
   U (bl_tradable (get_balance s a k)) + U (bl_escrowed (get_balance s a k)) < BOUND.
 Proof.
   intros (Hct & Hsc & Hk & Hc & He) Hb.
-  unfold get_balance. destruct (balances s !! (a, k)) as [b|] eqn:E; cbn [default].
-  2:{ unfold zero_balance. cbn. pose proof BOUND_pos. lia. }
+  unfold get_balance. destruct (balances s !! (a, k)) as [b|] eqn:E; cbn [default id].
+  2:{ unfold zero_balance. cbn [bl_tradable bl_escrowed]. rewrite U_dzero. pose proof BOUND_pos. lia. }
   destruct Hk as (_ & Hk2 & Hk3 & _).
   destruct (Hk3 _ _ _ E) as [ba Hba].
   destruct (proj1 (Hk2 k) (ex_intro _ ba Hba)) as [su Hsu].
@@ -429,7 +435,7 @@ Proof.
   assert (H2 : 0 <= bb_sum (ba_denom ba) (basket_balances s)).
   { unfold bb_sum. apply sum_map_nonneg. intros k0 v Hv. destruct (bytes_eqb k0.2 (ba_denom ba)); [|lia].
     destruct (Hs3 _ _ Hv). lia. }
-  unfold tradable_escrowed in H1. lia.
+  unfold tradable_escrowed at 1 in H1. lia.
 Qed.
 
 Lemma order_units_bound s id o :
